@@ -101,6 +101,12 @@ CHECKS = {
    design="5 (C09), 4.10",
    note="the raw-byte inputs come from a seeded generator, not from TLC; findings are keyed by panic location",
    technique="TLC-enumerated mutation scripts + seeded random inputs, crash-isolating workers, trace validation against the Frontend.tla acceptor"),
+ "C11": dict(
+   level="exploration",
+   text="Marshal.tla models the boundary as functions over abstract values: Rep (the VM representation Pushable must build = what compiled Gluon code observes), Get (its inverse), SerRep (the serde bridge; 'faithful' = the property, 'coded' = ser.rs as written) and the signature-compatibility relation, over 61 Rust types closed under Option / Result / Vec / tuple / BTreeMap / derived struct and enum to nesting depth 3 with boundary atoms. TLC checks round trip, injectivity, signature soundness (and that the bridge as coded is NOT faithful / injective) and emits every (type, value) and (Rust type, global) case; the harness replays each through five routes on a real VM - Pushable + projection of the VM value + Getable, a Gluon identity function, the value compiled from the Gluon literal, Ser -> De directly and through a function - and requests every global at every Rust type. The thorough tier re-instantiates the atoms with seeded random values (ints, float bit patterns, code points, strings).",
+   design="5 (C11)",
+   note="the Rust types are a fixed table of monomorphic instantiations in the harness; values containing std.map trees are compared by meaning, not representation; () is one observation (Tag 0 = Int 0)",
+   technique="TLC evaluation of the representation functions and laws of Marshal.tla + replay of every emitted case on a real VM with the VM value projected back into the model's terms"),
  "C10": dict(
    level="exploration",
    text="Thin use of the family: the acceptor Format.tla states the four preservation clauses (same tree, same comments in order, literals byte for byte, idempotent); inputs are Lang.tla programs in three concrete styles and every .glu file of std, tests/pass and examples, plain and under whitespace perturbation (CRLF, trailing blanks, doubled blank lines); each record (trees of input and output normalised without positions / symbol counters / redundant parentheses, comment and literal sequences, second formatting) is validated by TLC against Format.tla.",
